@@ -653,3 +653,33 @@ def orders(draw, used, env, exact_weight=1):
     k = draw(st.integers(0, len(extras)))
     ex = draw(st.permutations(extras))[:k] if extras else []
     return s, draw(st.permutations(used + list(ex)))
+
+
+@st.composite
+def same_length_variant(draw, order, used, extras):
+    """another variable list of the SAME length for the same expression object: the middle permuted with first and last
+    kept, or one unused variable replaced by a different unused one at another position (the mentioned variables keep
+    their relative order but move to other columns).  None if no such list exists."""
+    order = list(order)
+    opts = []
+    if len(order) >= 4:
+        opts.append("middle")
+    unused = [n for n in order if n not in set(used)]
+    if unused and extras:
+        opts.append("swap-unused")
+    if len(order) >= 2:
+        opts.append("rotate")
+    if not opts:
+        return None
+    how = draw(st.sampled_from(opts))
+    if how == "middle":
+        mid = list(draw(st.permutations(order[1:-1])))
+        out = [order[0]] + mid + [order[-1]]
+    elif how == "swap-unused":
+        u = draw(st.sampled_from(unused))
+        out = [n for n in order if n != u]
+        out.insert(draw(st.integers(0, len(out))), draw(st.sampled_from(list(extras))))
+    else:
+        k = draw(st.integers(1, len(order) - 1))
+        out = order[k:] + order[:k]
+    return out if out != order else None
